@@ -4,12 +4,13 @@ from __future__ import annotations
 import ast
 import math
 import operator
+import re
 from typing import Any, Dict, List, Optional, Tuple
 
 from .. import AnalysisError
 from ..absint import EvalRaise, EvalReturn, Evaluator, Opaque, Unknown
 from ..framemodel import Frame, LibTypeError, Ser, Unsupported, _Loc, _At, _Columns
-from ..program import FuncInfo, norm, walk_local
+from ..program import FuncInfo, enclosing_stmt, norm, walk_local
 
 EXPLANATION = (
     "The table pipelines of ModelSummary, MetaboliteSummary and ReactionSummary (__init__, _generate, _display_flux, "
@@ -714,6 +715,77 @@ def check_route(ctx) -> None:
             ctx.bad("C20.route", fn, calls[0], f"{short} passes {kw} instead of {want}: the summary does not describe the solution/FVA the caller supplied")
 
 
+_SUMMARY_MODULES = ("cobra.summary.summary", "cobra.summary.model_summary", "cobra.summary.metabolite_summary", "cobra.summary.reaction_summary")
+_CONTAINER_CALLS = ("dict", "list", "set", "OrderedDict", "defaultdict", "WeakKeyDictionary", "WeakValueDictionary", "WeakSet", "deque")
+_STORING_METHODS = ("setdefault", "update", "append", "add", "extend", "insert", "__setitem__", "appendleft")
+
+
+def _is_container(v) -> bool:
+    if isinstance(v, (ast.Dict, ast.List, ast.Set)):
+        return True
+    return isinstance(v, ast.Call) and norm(v.func).split(".")[-1] in _CONTAINER_CALLS
+
+
+def check_fresh(ctx) -> None:
+    """A summary describes the model as it stands at the call. The model is mutable and tells nobody when it is edited
+    (bounds, objective, direction, stoichiometry, solver configuration), so whatever a summary module derives from it
+    - the default pFBA solution, an FVA frame - is valid for that call only. Rule: no function of the summary modules
+    stores into a container that outlives the call (module-level or class-level table, or a `global` rebinding), and
+    none carries a cross-call cache decorator. Attributes of the Summary instance are not concerned: an instance is the
+    snapshot the caller asked for."""
+    prog = ctx.prog
+    scanned = 0
+    for mod in _SUMMARY_MODULES:
+        try:
+            unit = prog.unit(mod)
+        except Exception:  # noqa: BLE001
+            raise AnalysisError(f"C20.fresh: module {mod} not found")
+        tables = {n for n, vals in unit.globals.items() if vals and _is_container(vals[-1])}
+        class_tables = set()
+        for cls in ast.walk(unit.tree):
+            if isinstance(cls, ast.ClassDef):
+                for st in cls.body:
+                    tgt = st.targets[0] if isinstance(st, ast.Assign) and len(st.targets) == 1 else st.target if isinstance(st, ast.AnnAssign) else None
+                    if isinstance(tgt, ast.Name) and getattr(st, "value", None) is not None and _is_container(st.value):
+                        class_tables.add((cls.name, tgt.id))
+        class_attr = {a for _, a in class_tables}
+        class_names = {c for c, _ in class_tables}
+
+        def outlives(e) -> Optional[str]:
+            if isinstance(e, ast.Name) and e.id in tables:
+                return e.id
+            if isinstance(e, ast.Attribute) and e.attr in class_attr:
+                base = norm(e.value)
+                if base in class_names or base in ("cls", "self.__class__", "type(self)") or (base == "self"):
+                    return f"{base}.{e.attr}"
+            return None
+
+        for f in prog.all_funcs():
+            if f.unit is not unit:
+                continue
+            scanned += 1
+            cached = [d for d in (f.decorators or []) if re.search(r"\b(lru_cache|cache|memoize|memoized)\b", d)]
+            hit = None
+            if cached:
+                hit = (f.node, f"is memoised across calls (@{cached[0]})")
+            globs = {n for st in walk_local(f.node) if isinstance(st, ast.Global) for n in st.names}
+            for n in walk_local(f.node):
+                if hit:
+                    break
+                if isinstance(n, ast.Subscript) and isinstance(n.ctx, ast.Store) and outlives(n.value):
+                    hit = (n, f"stores into `{outlives(n.value)}`, which outlives the call")
+                elif isinstance(n, ast.Call) and isinstance(n.func, ast.Attribute) and n.func.attr in _STORING_METHODS and outlives(n.func.value):
+                    hit = (n, f"stores into `{outlives(n.func.value)}` (.{n.func.attr}), which outlives the call")
+                elif isinstance(n, ast.Name) and isinstance(n.ctx, ast.Store) and n.id in globs:
+                    hit = (n, f"rebinds the module-level name `{n.id}`")
+            if hit:
+                ctx.bad("C20.fresh", f, enclosing_stmt(hit[0]) if not isinstance(hit[0], (ast.FunctionDef, ast.AsyncFunctionDef)) else hit[0], f"`{f.qualname.split('.')[-1]}` {hit[1]}: what a summary module derives from the model is valid for the model as it stood at that call only - the model can be edited (bounds, objective, direction, stoichiometry, solver settings) without the store being told, and the next summary then describes a model that no longer exists")
+            else:
+                ctx.ok("C20.fresh", f, None, "keeps nothing beyond the call / the summary instance", nontrivial=True)
+    if not scanned:
+        raise AnalysisError("C20.fresh: no function found in the summary modules")
+
+
 def run(ctx) -> None:
     ctx.rule("C20.rows", "finite domain: every reaction exactly once over the two tables and in to_frame()", floor=8)
     ctx.rule("C20.sign", "finite domain: side = sign of flux x coefficient, zero rows by coefficient", floor=8)
@@ -725,6 +797,8 @@ def run(ctx) -> None:
     ctx.rule("C20.render", "T10: display helpers total over thresholds and table shapes", floor=12)
     ctx.rule("C20.detached", "T8: to_frame/public tables are copies; held model objects are copies", floor=7)
     ctx.rule("C20.route", "call routing of the three summary() methods", floor=3)
+    ctx.rule("C20.fresh", "T4: the summary modules keep nothing derived from the model beyond the call (no module-/class-level store, no cache decorator)", floor=12)
+    ctx.guard(check_fresh, ctx)
     # the coefficient a summary scales by is read through Reaction.get_coefficient on the reaction as it stands: no
     # getter of a model object may answer from a store that an edit has not dropped (shared with C02)
     from . import stores
